@@ -202,22 +202,24 @@ func compareRegDay(got obs.RegDay, want model.DayAcc, layout string, exact, with
 			if gf.Name != wf.Name {
 				return "food-list", fmt.Sprintf("day %s food %d: %q, want %q", got.Date, i, gf.Name, wf.Name)
 			}
-			if !numOK(gf.Qty, wf.Qty, 2, absRat(wf.Qty), exact) {
+			if !numOK(gf.Qty, wf.Qty, 2, wf.QtyAbs, exact) {
 				return "food-quantity", fmt.Sprintf("day %s food %q: printed %s, want %s", got.Date, wf.Name, gf.Raw, rs(wf.Qty))
 			}
 			if len(gf.Ingredients) != len(wf.Ingredients) {
 				return "ingredients", fmt.Sprintf("day %s food %q: %d ingredient rows %v, want %d", got.Date, wf.Name, len(gf.Ingredients), nvNames(gf.Ingredients), len(wf.Ingredients))
 			}
 			wm := map[string]*big.Rat{}
+			wa := map[string]*big.Rat{}
 			for _, e := range wf.Ingredients {
 				wm[e.Name] = e.V
+				wa[e.Name] = e.A
 			}
 			for _, gi := range gf.Ingredients {
 				ex, ok := wm[gi.Name]
 				if !ok {
 					return "ingredients", fmt.Sprintf("day %s food %q: unexpected ingredient %q", got.Date, wf.Name, gi.Name)
 				}
-				if !numOK(gi.V, ex, 2, absRat(ex), exact) {
+				if !numOK(gi.V, ex, 2, wa[gi.Name], exact) {
 					return "ingredient-value", fmt.Sprintf("day %s food %q ingredient %q: printed %s, want %s", got.Date, wf.Name, gi.Name, gi.Raw, rs(ex))
 				}
 				delete(wm, gi.Name)
